@@ -6,7 +6,7 @@
   k*pi/2 for k = -2, -1, 2, 3 (all four orientations of the detector against the scan).
 * `run_sessions` — TWO LIVE objects on the same geometry with different hyper-parameters (rotation, defocus, and in the second
   configuration aperture / softness / upsampling), called alternately with full mask, sub-mask, its complement and the two
-  checkerboard half-sets; every parallax result is judged by the NumPy roll oracle (independent of anything the process may have
+  checkerboard half-sets, and with another upsampling factor for single calls; every parallax result is judged by the NumPy roll oracle (independent of anything the process may have
   cached), every other kernel by a fresh object and by repeat-call determinism; half-set recombination on the live object;
   the private `_reconstruct_with_halfsets` / `_make_checkerboard_bf_masks` (when present) vs the Lean model `halfsetContexts`.
 * `run_large` — num_bf = 289 (> 255) and a sub-mask whose stack rows go beyond 127 / 255: parallax vs the oracle for
@@ -150,8 +150,10 @@ def _session(ctx, drv, si, det, scan):
     ctx.dist[f"r6-session:det-{'H<W' if gpts[0] < gpts[1] else 'H>W'}"] += 1
     tag = {"r6_session": si}
 
-    def judge(who, what, b, step):
+    def judge(who, what, b, step, u=None):
         dp, case, stack = objs[who]
+        if u is not None:        # the same live object, another upsampling factor for this call only
+            case = dict(case, u=u)
         rws = rows[what]
         m = None if what == "full" else mask_of(dp, ii, jj, rws)
         got = c04.recon(dp, case, bf_mask=m, b=b).reshape(len(rws), -1).sum(axis=0)
@@ -170,6 +172,12 @@ def _session(ctx, drv, si, det, scan):
             ("A", "comp", 2), ("A", "full", n - 1), ("B", "h2", 4), ("A", "h1", None), ("B", "full", 5), ("A", "full", 2 * n)]
     for step, (who, what, b) in enumerate(plan):
         if not judge(who, what, b, step):
+            return
+    # a parameter changes between calls on ONE object: another upsampling factor, then the original one again
+    uA, uB = objs["A"][1]["u"], objs["B"][1]["u"]
+    for step, (who, what, b, u_) in enumerate([("A", "full", 2, 3 - uA), ("B", "sub", None, uB + 1), ("A", "sub", None, None),
+                                               ("B", "full", 3, None), ("A", "h1", None, 3 - uA)], start=50):
+        if not judge(who, what, b, step, u=u_):
             return
 
     # ---- the half-set code itself (private: internal stage, compared with the Lean model / the oracle, never a predicate) ----
@@ -252,6 +260,10 @@ def _session(ctx, drv, si, det, scan):
                     ctx.pred_fail(f"recombine-{kern}", "checkerboard half-sets: W_1*bf_1 + W_2*bf_2 != W*bf", dict(tag, kernel=kern, who=who),
                                   observed={"rel_diff": err, "W": [W1, W2, WS], **c04.summarize(lhs)}, required=c04.summarize(rhs))
                     return
+    # parallax again after the other kernels ran on the same two objects
+    for step, (who, what, b) in enumerate([("A", "full", None), ("B", "h1", 2)], start=200):
+        if not judge(who, what, b, step):
+            return
 
 
 # ---------------------------------------------------------------------------------------
